@@ -76,7 +76,7 @@ def main() -> None:
                     output_reply = MPI.COMM_WORLD.gather(output, root=0)
                 else:
                     output_reply = output
-            except Exception as error:
+            except BaseException as error:
                 if mpi_rank_zero:
                     interface_send(
                         socket=socket,
